@@ -275,3 +275,30 @@ Example C02_lss_example :
   lrun true [(0, true)]%nat [LDel 0; LClear; LPopItem; LSet 1 true; LPop 0; LUpdate [(2, true); (4, true)]; LSet 2 false]%nat
   = [(1, true)]%nat.
 Proof. vm_compute. reflexivity. Qed.
+
+(* ===== SubmodelElementList._check_constraints (AASd-107/108/109/114/120), pure model ========= *)
+(* an accepted new element has no idShort and the list with it - at any position - satisfies
+   AASd-107/108/109/114 *)
+Theorem C02_sml_accept_wf : forall c e l, wf_list c l -> check_new c e l = None ->
+  ehasid e = false /\ forall l1 l2, l = l1 ++ l2 -> wf_list c (l1 ++ e :: l2).
+Proof. exact check_new_accept. Qed.
+(* a refusal carries the number of a constraint the new element really violates *)
+Theorem C02_sml_reject : forall c e l x, wf_list c l -> check_new c e l = Some x ->
+  (x = EAASd 120 /\ ehasid e = true) \/
+  (ehasid e = false /\ ~ wf_list c (e :: l) /\
+   ((x = EAASd 108 /\ type_ok c e = false) \/
+    (x = EAASd 107 /\ exists s s', semle c = Some s /\ esem e = Some s' /\ s' <> s) \/
+    (x = EAASd 109 /\ prop_or_range c = true /\ vtle c <> Some (evt e)) \/
+    (x = EAASd 114 /\ exists y a b, In y l /\ esem e = Some a /\ esem y = Some b /\ b <> a))).
+Proof. exact check_new_reject. Qed.
+(* every history of single additions (refused ones skipped) from the empty list *)
+Theorem C02_sml_history : forall c es l, wf_list c l -> wf_list c (fst (sml_adds c l es)).
+Proof. exact sml_adds_wf. Qed.
+(* [no semantic id; A; B]: the third element is refused although the FIRST element has no
+   semantic id - the check looks at every contained element *)
+Example C02_sml_example :
+  snd (sml_adds (mkCfg 0 [] true (Some 0%nat) None) []
+         [mkElem 0 0 None false; mkElem 0 0 (Some 1%nat) false; mkElem 0 0 (Some 2%nat) false; mkElem 0 1 None false;
+          mkElem 1 0 None false; mkElem 0 0 (Some 1%nat) true])
+  = [None; None; Some (EAASd 114); Some (EAASd 109); Some (EAASd 108); Some (EAASd 120)].
+Proof. vm_compute. reflexivity. Qed.
